@@ -3,7 +3,7 @@
    Save/SaveProofs.v. *)
 From Coq Require Import List ZArith Bool.
 From Coq Require Import Permutation.
-From RtoscV Require Import Save.TopoModel Save.SaveModel Save.SaveProofs Save.RoundProofs.
+From RtoscV Require Import Save.TopoModel Save.SaveModel Save.SaveProofs Save.RoundProofs Save.RoundFull Save.PermApp Save.SortStage.
 Import ListNotations.
 Local Open Scope Z_scope.
 
@@ -60,45 +60,87 @@ Theorem C12_stored_value_is_a_fixed_point : forall p v v', store p v = Some v' -
   match p_kind p with KO => True | _ => store p v' = Some v' end.
 Proof. exact store_idem. Qed.
 
-(* ROUND TRIP.  Full statement: for any state an application can reach, the
-   savefile loaded into a default-initialised instance reproduces that state and
-   loading reports one message per saved line.
-   Proved as a composition over the stages of the real pipeline (Section
-   variables of Save/RoundProofs.v); the hypotheses [stage_hypotheses] are the
-   other properties' statements about those stages:
-     C09  the walk reaches exactly the live ports, each once
-     C16  rtosc_arg_vals_eq is the value equality same_value
-     C10  scanning the printed lines gives the lines back (with non-negative byte counts)
-     C04 (+C14)  a rebuilt message is delivered to the port with that address and stored by its callback
-     C13  the sort returns a permutation of the lines that puts a preset selector in front of its dependents
-   _partial because of [side_conditions]: (1) no pointer sub-trees, (2) no "#N"
-   leaf arrays, (3) distinct addresses, (4) a preset selector has a plain default
-   and (5) stands beside its dependents, (6-8) state and defaults hold one value
-   per port, (9) the state is stable (sending a saved value stores that value:
-   C12_stable_non_option gives it for every stored value of a non-option port).
-   "Reproduces": every live parameter that declares a default holds the saved
-   value, or one that rtosc_arg_vals_eq identifies with it (-0.0 / 0.0). *)
-Theorem C12_roundtrip_partial :
+(* ROUND TRIP.  For any state an application can reach, the savefile loaded into
+   a default-initialised instance reproduces that state and loading reports one
+   message per saved line.
+
+   C12_roundtrip_abstract: for the abstract application - preset selectors,
+   switches with pointer sub-trees (the object below exists only while the switch
+   is on; switching on allocates a default-initialised one), "enabled by" toggles
+   on embedded sub-trees, "#N" leaf arrays (lines trimmed by first_equal_index),
+   ports without default - and ANY order of the saved lines that is a permutation
+   of them in which a selector stands in front of its dependents and a switch in
+   front of the lines below its sub-tree (what C13_topo provides): every line is
+   accepted, the count is the number of lines, and every live parameter that
+   declares a default is restored element by element (equal, or identified with the
+   saved one by rtosc_arg_vals_eq on the stored or on the shown value: -0.0 / 0.0,
+   the trimmed suffix of an array).
+   What remains as side condition, [full_conditions a st]:
+     wf_app a   distinct addresses; a selector is a scalar port with a plain default
+                in the same object as its dependents; the switch of a pointer
+                sub-tree is a scalar port with a plain default outside that
+                sub-tree and below the same outer switches; every default holds as
+                many values as the port has elements;
+     the state has one value per element, and every saved element is stable:
+     sending its shown value stores it (C12_stable_non_option: true of everything
+     a non-option callback ever stored; for options: the symbol names the number). *)
+Theorem C12_roundtrip_abstract : forall a st ord,
+  full_conditions a st -> Permutation ord (saved a st) -> respects (must_precede a) ord ->
+  exists fin, apply_all a (map (the_line a st) ord) (initial a) = (fin, true) /\
+    length ord = length (save_lines a st) /\
+    forall q, (q < length a)%nat -> p_nodef (port_at a q) = false -> live a st q = true ->
+              restored_val (port_at a q) (val_at st q) (val_at fin q).
+Proof. exact roundtrip_abstract_full. Qed.
+
+(* The same for the pipeline real_load (real_save st) (initial a) whose stages are
+   Section variables; _partial: [stage_hypotheses_full] are the other properties'
+   statements about those stages (C09 walk, C16 value equality, C10 print/scan,
+   C04+C14 dispatch and callback, C13 sort), still hypotheses here. *)
+Theorem C12_roundtrip_pipeline_partial :
   forall text walk av_eq print_lines scan_text dispatch sort_lines a st,
-    stage_hypotheses text walk av_eq print_lines scan_text dispatch sort_lines a st ->
-    side_conditions a st ->
+    stage_hypotheses_full text walk av_eq print_lines scan_text dispatch sort_lines a st ->
+    full_conditions a st ->
     exists fin,
       real_load text scan_text dispatch sort_lines a
                 (real_save text walk av_eq print_lines a st) (initial a)
       = Some (Z.of_nat (length (save_lines a st)), fin) /\
       forall q, (q < length a)%nat -> p_nodef (port_at a q) = false -> live a st q = true ->
-                restored st fin q.
-Proof. exact roundtrip_partial. Qed.
+                restored_val (port_at a q) (val_at st q) (val_at fin q).
+Proof. exact roundtrip_pipeline_full. Qed.
 
-(* the same for the abstract application's own load loop, for ANY order of the
-   saved lines that is a permutation respecting selector-before-dependent *)
-Theorem C12_roundtrip_abstract_partial : forall a st ord,
-  side_conditions a st -> Permutation ord (saved a st) -> respects (before a) ord ->
-  exists fin, apply_all a (map (the_line a st) ord) (initial a) = (fin, true) /\
-    length ord = length (save_lines a st) /\
-    forall q, (q < length a)%nat -> p_nodef (port_at a q) = false -> live a st q = true ->
-              restored st fin q.
-Proof. exact roundtrip_abstract. Qed.
+(* The pipeline with the SORT stage instantiated: sort_lines is the model of the
+   real algorithm (scan_deps + Kahn: TopoModel.load_order over the lookup
+   [apropos], e.g. TopoTree.apropos_of_tree root = C18's Ports::apropos + C17's
+   metadata lookup) and its correctness comes from C13_topo / C13_edges_complete,
+   not from a hypothesis.  Remaining stage hypotheses [stage_hypotheses4]: C09
+   (walk), C16 (value equality), C10 (print/scan), C04+C14 (dispatch, callback).
+   In exchange the theorem asks what C13_topo asks: the metadata declares the
+   application's dependencies, the scan of the saved file ends, its edges are
+   acyclic. *)
+Theorem C12_roundtrip_pipeline_sorted_partial :
+  forall text walk av_eq print_lines scan_text dispatch apropos fuel a st ps,
+    stage_hypotheses4 text walk av_eq print_lines scan_text dispatch a st ->
+    full_conditions a st ->
+    declared a apropos ->
+    pushes line apropos fuel (msgs (save_lines a st)) = Some ps -> ranked ps ->
+    exists fin,
+      real_load text scan_text dispatch (fun _ ls => sort_by_load_order apropos fuel ls) a
+                (real_save text walk av_eq print_lines a st) (initial a)
+      = Some (Z.of_nat (length (save_lines a st)), fin) /\
+      forall q, (q < length a)%nat -> p_nodef (port_at a q) = false -> live a st q = true ->
+                restored_val (port_at a q) (val_at st q) (val_at fin q).
+Proof. exact roundtrip_pipeline_sorted. Qed.
+
+(* non-vacuity: a switch with a pointer sub-tree and a three-element array whose
+   line is trimmed to two; switch first restores the state, the line below the
+   sub-tree in front of its switch is not accepted *)
+Theorem C12_roundtrip_full_nonvacuous :
+  full_conditions fx_app fx_state /\ saved fx_app fx_state = [0%nat; 1%nat; 2%nat] /\
+  respects (must_precede fx_app) [0%nat; 2%nat; 1%nat] /\
+  l_vals (the_line fx_app fx_state 2) = [VI 1; VI 5] /\
+  apply_all fx_app (map (the_line fx_app fx_state) [0%nat; 2%nat; 1%nat]) (initial fx_app) = (fx_state, true) /\
+  snd (apply_all fx_app (map (the_line fx_app fx_state) [1%nat; 0%nat; 2%nat]) (initial fx_app)) = false.
+Proof. exact roundtrip_full_nonvacuous. Qed.
 
 Theorem C12_stable_non_option : forall p v v', p_kind p <> KO -> store p v = Some v' ->
   store p (shown p v') = Some v'.
